@@ -277,6 +277,14 @@ def cfgOut (o : Outcome (Setup Float)) : String :=
   | .ok s => configTokens (asConfig s)
   | o => errTok o
 
+/-- configuration of the swept setup plus the stored poling sign (which the configuration omits) -/
+def cfgOutSigned (o : Outcome (Setup Float)) : String :=
+  match o with
+  | .ok s => configTokens (asConfig s) ++ " " ++ (match s.pp with
+      | .off => "sign:off"
+      | .on _ neg _ => if neg then "sign:neg" else "sign:pos")
+  | o => errTok o
+
 def handle (op : String) (args : List String) : Option String :=
   match op with
   | "try_as_spdc" => tryAsSpdcLine args
@@ -292,7 +300,7 @@ def handle (op : String) (args : List String) : Option String :=
       let v1 ← parseFl v1; let v2 ← parseFl v2
       pure (match Path.ofString p1, Path.ofString p2 with
         | some q1, some q2 =>
-          cfgOut ((setter (extOfSweep x 1) q1 s v1).bind fun s1 => setter (extOfSweep x 2) q2 s1 v2)
+          cfgOutSigned ((setter (extOfSweep x 1) q1 s v1).bind fun s1 => setter (extOfSweep x 2) q2 s1 v2)
         | _, _ => "ERR")
     | _ => none
   | "sweep_order" => do
